@@ -347,12 +347,15 @@ func (x *Exec) validate(ctx context.Context, database, username, password string
 	x.retainStr(database)
 	x.retainStr(username)
 	x.retainStr(password)
+	// the scripted verdict is the part of the password before the first '-'
 	ret := "bad"
-	switch {
-	case strings.HasPrefix(password, "good"):
-		ret = "good"
-	case strings.HasPrefix(password, "err"):
-		ret = "err"
+	cls := password
+	if i := strings.IndexByte(password, '-'); i >= 0 {
+		cls = password[:i]
+	}
+	switch cls {
+	case "good", "err", "errc":
+		ret = cls
 	}
 	x.cb(ctx, M{"name": "validate", "db": database, "user": username, "pw": password, "ret": ret})
 	switch ret {
@@ -360,6 +363,9 @@ func (x *Exec) validate(ctx context.Context, database, username, password string
 		return ctx, true, nil
 	case "err":
 		return ctx, false, errors.New("validator failed")
+	case "errc":
+		// a failure that carries a SQLSTATE and a severity of its own (an unknown database, say)
+		return ctx, false, pgerr.WithSeverity(pgerr.WithCode(errors.New("database does not exist"), codes.Code("3D000")), pgerr.LevelFatal)
 	}
 	return ctx, false, nil
 }
